@@ -657,3 +657,108 @@ func ruleOpen1(c *Ctx) []*Ob {
 	}
 	return o.list
 }
+
+func init() {
+	register(&Rule{
+		ID: "SCAN-4",
+		Doc: "A footer may be as long as it needs to be: in ScanFooter an ordering comparison (<, <=, >, >=) of a length read from the file takes its other side from the framing sizes " +
+			"(footerBegLen, footerEndLen, the magic lengths), from the file itself (position, size, bytes read, another field read from the file) - never from the page size or a literal. " +
+			"Footers grow by ~140 bytes per persisted segment and child, so any fixed upper bound sooner or later rejects the newest valid footer and a clean reopen silently falls back to an older one.",
+		Props: []string{"C04", "C05"},
+		Floor: 1,
+		Run:   ruleScan4,
+	})
+}
+
+func ruleScan4(c *Ctx) []*Ob {
+	o := newObs(c, "SCAN-4")
+	f := c.Fn("ScanFooter")
+	fn := c.fname(f)
+	fileCell := func(v ssa.Value) bool {
+		ld, ok := v.(*ssa.UnOp)
+		if !ok || ld.Op != token.MUL {
+			return false
+		}
+		a, ok := ld.X.(*ssa.Alloc)
+		return ok && addrPassedToCall(a)
+	}
+	// leaves of an arithmetic expression
+	var leaves func(v ssa.Value, d int, out *[]ssa.Value)
+	leaves = func(v ssa.Value, d int, out *[]ssa.Value) {
+		if d > 8 {
+			*out = append(*out, v)
+			return
+		}
+		switch x := v.(type) {
+		case *ssa.BinOp:
+			leaves(x.X, d+1, out)
+			leaves(x.Y, d+1, out)
+		case *ssa.Convert:
+			leaves(x.X, d+1, out)
+		case *ssa.ChangeType:
+			leaves(x.X, d+1, out)
+		case *ssa.Phi:
+			for _, e := range x.Edges {
+				leaves(e, d+1, out)
+			}
+		default:
+			*out = append(*out, v)
+		}
+	}
+	framing := map[string]bool{"footerBegLen": true, "footerEndLen": true, "lenMagicBeg": true, "lenMagicEnd": true}
+	n := 0
+	eachInstr(f, func(i ssa.Instruction) {
+		b, ok := i.(*ssa.BinOp)
+		if !ok {
+			return
+		}
+		switch b.Op {
+		case token.LSS, token.LEQ, token.GTR, token.GEQ:
+		default:
+			return
+		}
+		var lx, ly []ssa.Value
+		leaves(b.X, 0, &lx)
+		leaves(b.Y, 0, &ly)
+		has := func(ls []ssa.Value) bool {
+			for _, l := range ls {
+				if fileCell(l) {
+					return true
+				}
+			}
+			return false
+		}
+		var other []ssa.Value
+		switch {
+		case has(lx) && !has(ly):
+			other = ly
+		case has(ly) && !has(lx):
+			other = lx
+		default:
+			return // both or neither side read from the file
+		}
+		n++
+		bad := ""
+		for _, l := range other {
+			switch x := l.(type) {
+			case *ssa.Const:
+				if x.Value != nil && x.Value.String() != "0" && x.Value.String() != "1" {
+					bad = "the literal " + x.Value.String()
+				}
+			case *ssa.UnOp:
+				if g, isG := x.X.(*ssa.Global); isG && x.Op == token.MUL && !framing[g.Name()] {
+					bad = "the package variable " + g.Name()
+				}
+			}
+		}
+		why := "bounded by the framing sizes / the file itself"
+		if bad != "" {
+			why = "a length read from the file is compared with " + bad + ": a fixed bound on the footer length rejects every footer that outgrows it (one page holds about 29 segments) - the newest footers are skipped on reopen and the store silently reverts to an older state"
+		}
+		o.add(fn, "bound on a length read from the file", c.instrPos(i), bad == "", why)
+	})
+	if n == 0 {
+		o.add(fn, "bound on a length read from the file", c.pos(f.Pos()), false, "anchor lost: ScanFooter compares no length read from the file (SCAN-2 reports the missing lower bound)")
+	}
+	return o.list
+}
